@@ -94,3 +94,15 @@ package storage
 //@ ensures[exists] forall(i, 0, len(result1), result1[i].Exists == (result1[i].Value != nil))
 //@ loop 0 invariant cap(memRes) == 0 || fresh(memRes)
 //@ loop 0 invariant forall(i, 0, len(memRes), memRes[i].Exists == (memRes[i].Value != nil))
+
+// Constructors: a new layer is empty and sits on the store it was given.
+//@ func NewMemoryStore
+//@ ensures[empty] result != nil && fresh(result) && result.mem != nil && result.stor != nil && len(result.mem) == 0 && len(result.stor) == 0 && fresh(result.mem) && fresh(result.stor)
+
+//@ func NewPrivateMemCachedStore
+//@ ensures[layer] result != nil && fresh(result) && result.private && result.ps == lower
+//@ ensures[empty] result.MemoryStore.mem != nil && result.MemoryStore.stor != nil && len(result.MemoryStore.mem) == 0 && len(result.MemoryStore.stor) == 0
+
+//@ func NewMemCachedStore
+//@ ensures[layer] result != nil && fresh(result) && !result.private && result.ps == lower
+//@ ensures[empty] result.MemoryStore.mem != nil && result.MemoryStore.stor != nil && len(result.MemoryStore.mem) == 0 && len(result.MemoryStore.stor) == 0
